@@ -142,14 +142,52 @@ def _receiver_evidence(site, target: str, idx) -> bool:
                         return False
         if (site.caller, name) in NOT_A_RESOURCE:
             return False
+        # elements of one collection have one type: if another `.name(...)` call on an element of the same collection
+        # cannot be a call of the sink (wrong number of arguments), none of them is
+        if f is not None and not _same_collection_fits(f, recv, name, idx.functions.get(target)):
+            return False
         return True
     return True
 
 
+def _collection_of(fn, recv) -> Optional[str]:
+    """name of the collection the receiver is an element of: `X[i]`, or the variable of `for v in X` / `for v in X[a:b]`"""
+    if isinstance(recv, ast.Subscript) and isinstance(recv.value, ast.Name):
+        return recv.value.id
+    if isinstance(recv, ast.Name):
+        for n in walk_local(fn.node):
+            if isinstance(n, ast.For) and isinstance(n.target, ast.Name) and n.target.id == recv.id:
+                it = n.iter
+                if isinstance(it, ast.Subscript):
+                    it = it.value
+                if isinstance(it, ast.Name):
+                    return it.id
+    return None
+
+
+def _same_collection_fits(fn, recv, name: str, target_fn) -> bool:
+    if target_fn is None:
+        return True
+    coll = _collection_of(fn, recv)
+    if coll is None:
+        return True
+    a = target_fn.node.args
+    npos = len(a.posonlyargs + a.args) - 1
+    nreq = npos - len(a.defaults)
+    for c in calls_in(fn.node):
+        if isinstance(c.func, ast.Attribute) and c.func.attr == name and _collection_of(fn, c.func.value) == coll:
+            if any(isinstance(x, ast.Starred) for x in c.args) or any(k.arg is None for k in c.keywords):
+                continue
+            given = len(c.args) + len(c.keywords)
+            if (len(c.args) > npos and a.vararg is None) or given < nreq:
+                return False
+    return True
+
+
 # suppressions by symbol, each with its reason
-NOT_A_RESOURCE = {
-    ("rope.refactor.importutils.module_imports.ModuleImports._move_imports", "move"):
-        "stmt ranges over the `imports` parameter; every call site passes sorted(visitor.<group>) of ImportStatement objects: ImportStatement.move(lineno)",
+NOT_A_RESOURCE: Dict[tuple, str] = {
+    # (was: ModuleImports._move_imports / "move" -- now decided by _same_collection_fits: `imports[0].move(index, blank_lines)` on an
+    #  element of the same list has two arguments, Resource.move takes one)
 }
 
 
